@@ -2,6 +2,7 @@ package checks
 
 import (
 	"bytes"
+	"net"
 	"fmt"
 	"math/rand"
 	"sort"
@@ -325,6 +326,13 @@ func init() {
 						if cn == string(first.Content) {
 							cn = strings.ToLower(cn)
 						}
+					}
+					if rng.Intn(3) == 0 {
+						// ... or an IP literal (the appliance shape: the address is also an iPAddress entry): the BR copies do
+						// not take an IP common name for a DNS name, so the dNSNames are again all there is to judge
+						ip := [][]byte{{192, 0, 2, 10}, {8, 8, 4, 4}, {0x20, 0x01, 0x0d, 0xb8, 0, 0, 0, 0, 0, 0, 0, 0, 0, 0, 0, 1}}[rng.Intn(3)]
+						cn = net.IP(ip).String()
+						gns = append(gns, gen.GNIP(ip))
 					}
 					for k := rng.Intn(3); k > 0; k-- {
 						gns = append(gns, gen.GNIP([]byte{byte(8 + k), 8, 4, byte(rng.Intn(250) + 1)}))
